@@ -3,6 +3,7 @@ package rules
 import (
 	"fmt"
 	"go/ast"
+	"go/constant"
 	"go/token"
 	"go/types"
 	"os"
@@ -1391,4 +1392,83 @@ func fieldOrAccessor(p *eng.Prog, info *types.Info, e ast.Expr, fld *types.Var) 
 	}
 	ret, isR := f.Decl.Body.List[0].(*ast.ReturnStmt)
 	return isR && len(ret.Results) == 1 && eng.IsField(f.Pkg.TypesInfo, ret.Results[0], fld)
+}
+
+// liftLocals widens an assumption about fields and parameters to the locals that merely carry them: a fact whose
+// operand is a local variable is judged on the expression that produced the local's value on the paths of the
+// scenario (`n := cfg.Limit ... if n != 0` is a fact about cfg.Limit). The value is looked up at the node where the
+// fact is consulted, with the unwidened assumption (no recursion); a local with two possible sources, or one whose
+// source is a call, stays unknown.
+func liftLocals(g *eng.Graph, info *types.Info, body ast.Node, base func(eng.Fact) bool) func(eng.Fact) bool {
+	busy := false
+	pure := func(e ast.Expr) bool {
+		ok := true
+		ast.Inspect(e, func(n ast.Node) bool {
+			switch n.(type) {
+			case *ast.CallExpr, *ast.FuncLit, *ast.UnaryExpr:
+				ok = false
+			}
+			return ok
+		})
+		return ok
+	}
+	source := func(at *eng.GNode, e ast.Expr) ast.Expr {
+		id, isId := ast.Unparen(e).(*ast.Ident)
+		if !isId {
+			return nil
+		}
+		v, isV := info.ObjectOf(id).(*types.Var)
+		if !isV || v.IsField() || !isDeclaredIn(info, body, v) {
+			return nil
+		}
+		busy = true
+		src, _, tup, uniq := valueAt(g, info, body, at, e, base)
+		busy = false
+		if !uniq || src == nil || tup >= 0 || src == ast.Expr(id) || !pure(src) {
+			return nil
+		}
+		return src
+	}
+	return func(fc eng.Fact) bool {
+		if base(fc) {
+			return true
+		}
+		if busy || fc.At == nil {
+			return false
+		}
+		if fc.Y != nil { // switch tag == case value
+			if s := source(fc.At, fc.X); s != nil {
+				return base(eng.Fact{X: s, Y: fc.Y, Pos: fc.Pos, At: fc.At})
+			}
+			return false
+		}
+		b, isB := ast.Unparen(fc.X).(*ast.BinaryExpr)
+		if !isB {
+			if s := source(fc.At, fc.X); s != nil {
+				return base(eng.Fact{X: s, Pos: fc.Pos, At: fc.At})
+			}
+			return false
+		}
+		nx, ny := b.X, b.Y
+		changed := false
+		if s := source(fc.At, b.X); s != nil {
+			nx, changed = s, true
+		}
+		if s := source(fc.At, b.Y); s != nil {
+			ny, changed = s, true
+		}
+		if !changed {
+			return false
+		}
+		// both sides constant after the substitution (`n := 0 ... if n != 0`): the comparison decides itself
+		if tx, okX := info.Types[nx]; okX && tx.Value != nil {
+			if ty, okY := info.Types[ny]; okY && ty.Value != nil {
+				switch b.Op {
+				case token.EQL, token.NEQ, token.LSS, token.LEQ, token.GTR, token.GEQ:
+					return constant.Compare(tx.Value, b.Op, ty.Value) == fc.Pos
+				}
+			}
+		}
+		return base(eng.Fact{X: &ast.BinaryExpr{X: nx, OpPos: b.OpPos, Op: b.Op, Y: ny}, Pos: fc.Pos, At: fc.At})
+	}
 }
